@@ -4,6 +4,7 @@ import (
 	"fmt"
 	"go/types"
 	"runtime"
+	"strings"
 
 	"golang.org/x/tools/go/ssa"
 )
@@ -117,7 +118,7 @@ func (in *Interp) pickNext(cur *coro) *coro {
 	if len(cand) == 0 {
 		return nil
 	}
-	switch s.policy {
+	switch strings.TrimPrefix(s.policy, "sticky-") {
 	case "last":
 		return cand[len(cand)-1]
 	case "rr":
@@ -176,9 +177,10 @@ func (in *Interp) yieldUntil(ready func() bool) {
 	}
 }
 
-// Yield is a scheduling point without blocking.
+// Yield is a scheduling point without blocking. Under a sticky policy the running
+// goroutine keeps the processor until it blocks.
 func (in *Interp) Yield() {
-	if len(in.co.coros) > 1 {
+	if len(in.co.coros) > 1 && !strings.HasPrefix(in.co.policy, "sticky-") {
 		in.yieldUntil(nil)
 	}
 }
